@@ -14,12 +14,10 @@ out = ['(* Properties_%s.v — the theorems that decide property %s on the model
        '   `exact <lemma>`; the lemmas live in the Proofs_*.v files.  Nothing else belongs in this file. *)',
        'From Theo Require Import %s.' % ' '.join(imports), 'Local Open Scope Z_scope.' if 'VM' in stfile else '', '']
 for n in names:
-    m = re.search(r'Definition %s_stmt : Prop :=\n(.*?)\.\n\n|Definition %s_stmt : Prop :=\n(.*?)\.\n\Z' % (n, n), src, flags=re.S)
-    if not m:
-        m = re.search(r'Definition %s_stmt : Prop :=\n(.*?)\.\n(?=\n|\(\*|Definition|Inductive|Fixpoint)' % n, src, flags=re.S)
+    m = re.search(r'Definition %s_stmt : Prop :=\s*(.*?)\.\s*\n(?=\s*\n|\s*\(\*|Definition|Inductive|Fixpoint|\Z)' % n, src, flags=re.S)
     if not m:
         sys.exit('statement %s not found' % n)
-    body = m.group(1) or m.group(2)
+    body = '  ' + m.group(1).strip()
     out.append('Theorem %s :\n%s.\nProof. exact %s_proof. Qed.\nPrint Assumptions %s.\n' % (n, body, n, n))
 open(os.path.join(COQ, 'Properties_%s.v' % pid), 'w').write('\n'.join(out))
 print('wrote Properties_%s.v with %d theorems' % (pid, len(names)))
